@@ -492,7 +492,7 @@ pub fn run(ctx: &ChildCtx, sh: &mut Shard) {
                     Err(_) => break,
                 };
                 if k == 0 && !g.variant.is_empty() {
-                    streams = 40;
+                    streams = 24;
                 }
                 k += 1;
                 let tv = (e.name.to_string(), g.variant.clone());
